@@ -186,16 +186,9 @@ def run(ctx):
                     'decoder writes scroll_speed = clamp(..)', fn.where(a['line']), bad='%s writes scroll_speed = `%s` without clamp' % (fn.path, prov.show(v, maxdepth=3)))
     ctx.floor('C06-R2', n2, 10, 'clamped fields')
     # ---- R3
-    # the sort may sit in a local helper that From<BeatmapState> calls with the state
-    sfn = frm
-    if not any(callee_path(t).endswith('TandemSorter::sort') for _, t in frm.calls()):
-        for _, t in frm.calls():
-            g = F.fn(callee_path(t)) if t['func'].get('local') else None
-            if g is not None and any(callee_path(t2).endswith('TandemSorter::sort') for _, t2 in g.calls()) and \
-                    any('BeatmapState' in (i.get('s') or '') for i in g.j.get('inputs', [])):
-                sfn = g
-                ctx.saw(g)
-                break
+    # the sort may sit in a local helper that From<BeatmapState> calls with the state or with its two lists: read through it
+    import inline
+    sfn = inline.inlined(F, frm, depth=2)
     P = prov.prov_of(sfn)
     sorts = [(bi, t) for bi, t in sfn.calls() if callee_path(t).endswith('TandemSorter::sort')]
     targets = {}
@@ -221,7 +214,7 @@ def run(ctx):
     if not pho:
         ctx.violation('C06-R3', 'anchor-missing:parse_hit_objects', 'not found')
     else:
-        f = pho[0]
+        f = inline.inlined(F, pho[0], depth=2)      # the paired push may be a small method of the parser state
         pushes = {}
         Pf = prov.prov_of(f)
         for bi, t in f.calls():
